@@ -9,7 +9,7 @@ import (
 
 var KeyedVars = []string{"ARGS", "ARGS_GET", "ARGS_POST", "ARGS_NAMES", "ARGS_GET_NAMES", "ARGS_POST_NAMES", "REQUEST_HEADERS", "REQUEST_HEADERS_NAMES", "REQUEST_COOKIES", "REQUEST_COOKIES_NAMES"}
 var RespKeyedVars = []string{"RESPONSE_HEADERS", "RESPONSE_HEADERS_NAMES"}
-var SingleVars = []string{"REQUEST_METHOD", "REQUEST_URI", "REQUEST_FILENAME"}
+var SingleVars = []string{"REQUEST_METHOD", "REQUEST_URI", "REQUEST_FILENAME", "REQUEST_URI_RAW", "REQUEST_BASENAME", "QUERY_STRING"}
 
 var rxKeys = []string{"^a", "^[ab]$", "b$", "^x", "o+", "^id$", ".", "^foo$", "^.$", "[0-9]", "^x-", "a|b", "^$"}
 var rxKeysUpper = []string{"^A", "^Foo$", "^ID$", "^X-A$", "B$"}
